@@ -436,6 +436,31 @@ def run(ctx, anchors=None):
                      % (astq.estr(n)[:60], f.name, tgt["n"], want))
     ctx.floor("R08.7", nmode, 2, "assignments of the mode flags")
 
+    # ---- R08.8 a failure is reported on stderr in non-interactive mode too: `btc_logf` is replaced by a dummy as soon as stdin or
+    # stdout is not a terminal, so a handler of the tools' mains that ends the run with a non-zero status writes its diagnostic
+    # to stderr itself (fprintf(stderr, ..) / fputs / std::cerr), not only through the logger.
+    ctx.rule("R08.8", "the top-level exception handlers of btcdeb's main report on stderr directly (the logger is silenced when piped)")
+    nh = 0
+    tries8 = []
+    for t_ in ([main.body] if main.body.get("k") == "try" else []) + [n for n in main.nodes() if n["k"] == "try"]:
+        if all(t_ is not x_ for x_ in tries8):
+            tries8.append(t_)
+    for ti_, t_ in enumerate(tries8):
+        for hi_, h in enumerate(t_.get("handlers", []) or []):
+            hb = h.get("body") if isinstance(h, dict) and h.get("body") is not None else h
+            rets = [x for x in walk(hb) if x["k"] == "return" and x.get("e") is not None and astq.const_value(x["e"]) not in (0, None)]
+            if not rets:
+                continue      # a handler that recovers (or rethrows) is not an exit path
+            nh += 1
+            ctx.site()
+            direct = any((x["k"] == "call" and x.get("n") in ("fprintf", "fputs", "perror") and any(y["k"] == "ref" and y.get("n") == "stderr" for y in walk(x))) or
+                         (x["k"] == "ref" and x.get("n") == "cerr") for x in walk(hb))
+            ctx.inst(direct, "R08.8", "handler-reports-on-stderr@%s:try%d.%d" % (main.name, ti_, hi_), main.loc(rets[0]),
+                     "the handler writes its diagnostic to stderr before returning %s" % astq.const_value(rets[0]["e"]),
+                     "a handler of %s returns %s without writing to stderr itself (it reports through btc_logf at most, which is a dummy when stdin or stdout is not a terminal): a script failing with an exception "
+                     "(script number overflow, non-minimal number) exits non-zero with no diagnostic in non-interactive mode" % (main.name, astq.const_value(rets[0]["e"])))
+    ctx.floor("R08.8", nh, 1, "exception handlers of the driver that end the run with a failure status")
+
 
 def _enclosing_stmt(func, n):
     cur = n
@@ -463,6 +488,7 @@ def _region(main, ch):
 
 
 MUTANTS = [
+    dict(name="top-level-handler-reports-through-the-logger", file="btcdeb.cpp", find="} catch (const std::exception& ex) {\n    fprintf(stderr, \"error: exception thrown: %s\\n\", ex.what());\n    return 1;", replace="} catch (const std::exception& ex) {\n    btc_logf(\"error: exception thrown: %s\\n\", ex.what());\n    return 1;", expect=["R08.8:handler-reports-on-stderr"]),
     dict(name="mode-flag-cleared-for-empty-stdin", file="btcdeb.cpp", find="        if (input.empty()) fprintf(stderr, \"warning: no input\\n\");", replace="        if (input.empty() && ca.l.size() > 0) pipe_in = false;\n        if (input.empty()) fprintf(stderr, \"warning: no input\\n\");", expect=["R08.7:mode-flag-from-isatty:pipe_in@main"]),
     dict(name="stdin-script-single-read", file="btcdeb.cpp", find="        while (fgets(buf, 1024, stdin)) input += buf;", replace="        if (fgets(buf, 1024, stdin)) input += buf;", expect=["R08.6:stdin-read-to-the-end"]),
     dict(name="verdict-from-done-flag", file="btcdeb.cpp", find="        if (!ContinueScript(*env)) {", replace="        ContinueScript(*env);\n        if (!instance.at_end()) {", expect=["R08.5:status-used:ContinueScript@main"]),
